@@ -181,6 +181,15 @@ pub fn c08(c: &Case, second: Option<&Rec>, expect_second: bool, rep: &mut Report
             rep.violation(c, &format!("C08/{}/{}", label, diff.0), &format!("{}: {}", what, diff.1), &[("out.emit.wasm", base), (&format!("out.{}.wasm", label), o)]);
         }
     }
+    // same logical module reached by (emit, edit, emit) and by (fresh parse, same edit, emit)
+    if let (Some(a), Some(b)) = (end.get("out.reedit"), end.get("out.reedit_fresh")) {
+        rep.count("compared-edit-after-emit", 1);
+        compared += 1;
+        if a != b {
+            let diff = describe_diff(b, a);
+            rep.violation(c, &format!("C08/edit-after-emit/{}", diff.0), &format!("emitting, editing and emitting again gives other bytes than applying the same edit to a freshly parsed module: {}", diff.1), &[("out.reedit.wasm", a), ("out.reedit_fresh.wasm", b)]);
+        }
+    }
     for (label, p) in panics(end) {
         rep.violation(c, &format!("C08/panic/{}", panic_signature(p)), &format!("step {} panicked: {}", label, p), &[]);
     }
